@@ -293,6 +293,57 @@ func c17Scenarios(tier string) []*world.Scenario {
 			out = append(out, c17Batch(i/batch, reqs[i:j], pos))
 		}
 	}
+	// argument counts far from the legal ones: around the powers of two where a narrow counter wraps (the legal count
+	// plus 256 / 65536 included), for every documented name and AUTH
+	{
+		var reqs []c17req
+		counts := []int{8, 9, 15, 16, 17, 31, 32, 33, 63, 64, 65, 127, 128, 129, 254, 255, 256, 257, 258, 259, 260, 261, 511, 512, 513, 514, 1023, 1025}
+		if tier != "thorough" {
+			counts = []int{16, 17, 127, 128, 129, 255, 256, 257, 258, 259, 260, 261, 513, 514}
+		}
+		for _, n := range append(append([]string{}, all...), "auth") {
+			if n == "quit" {
+				continue
+			}
+			for _, na := range counts {
+				args := make([]string, na)
+				for k := range args {
+					args[k] = fmt.Sprintf("k%d", k%50+30)
+				}
+				r := c17req{raw: world.Cmd(append([]string{n}, args...)...), name: n, nargs: na, args: args}
+				r.served, r.local, r.expect = c17Expect(n, args, "")
+				reqs = append(reqs, r)
+			}
+		}
+		for _, n := range []string{"get", "set", "ping", "setnx", "linsert", "expire"} {
+			sp := world.SpecTable[n]
+			lc := argCounts(sp.Arity)
+			if len(lc) == 0 {
+				lc = []int{0}
+			}
+			for _, legal := range lc[:1] {
+				na := legal + 65536
+				args := make([]string, na)
+				for k := range args {
+					args[k] = "a"
+				}
+				r := c17req{raw: world.Cmd(append([]string{n}, args...)...), name: n, nargs: na, args: args}
+				r.served, r.local, r.expect = c17Expect(n, args, "")
+				reqs = append(reqs, r)
+			}
+		}
+		const batch = 40
+		for i := 0; i < len(reqs); i += batch {
+			j := i + batch
+			if j > len(reqs) {
+				j = len(reqs)
+			}
+			sc := c17Batch(1000+i/batch, reqs[i:j], "alone")
+			sc.Family = "arity-far"
+			sc.MaxLen = 4 << 20
+			out = append(out, sc)
+		}
+	}
 	// QUIT alone, AUTH with a configured password
 	for _, v := range caseFlips("quit") {
 		r := QuitReq()
